@@ -56,6 +56,20 @@ def loop_info(fb, f, loop):
         # for (i = 0; i < N; i++)
         if init is not None and init['k'] == 'BinaryOperator' and init.get('op') == '=' and tab.const_of(init['c'][1]) == 0:
             return ('forward', 'index')
+        # for (i = M.find_first(); i != npos; i = M.find_next(i))   (also with the declaration in the init clause)
+        ini_expr = None
+        if init is not None and init['k'] == 'BinaryOperator' and init.get('op') == '=':
+            ini_expr = init['c'][1]
+        elif init is not None and init['k'] == 'DeclStmt' and init.get('decls') and 'init' in init['decls'][0]:
+            ini_expr = init['decls'][0]['init']
+        if ini_expr is not None:
+            firsts = [x for x in sub(ini_expr) if x.get('callee', {}).get('q', '').endswith('::find_first')]
+            inc = loop['c'][3] if len(loop.get('c', [])) > 3 else None
+            nexts = [x for x in sub(inc)] if inc else []
+            if firsts and any(x.get('callee', {}).get('q', '').endswith('::find_next') for x in nexts):
+                ms = [y['ref']['name'] for y in sub(firsts[0]) if y['k'] == 'MemberExpr' and y['ref'].get('dk') == 'Field']
+                if ms:
+                    return ('forward', ms[0])
         return None
     if k == 'WhileStmt':
         cond = strip(loop['c'][0])
@@ -203,14 +217,25 @@ class Skeleton:
     def interval_comparisons(self):
         """comparisons between endpoints of exit intervals: (node, op)"""
         res = []
+        helpers = {}     # file-local helpers that receive exit intervals as arguments (an extracted overlap test)
         for f in self.fb.funcs.values():
             if f.rec != self.cls:
+                continue
+            for n in f.walk():
+                c = n.get('callee')
+                if c and n['k'] == 'CallExpr' and not c.get('ext') and c['m'] in self.fb.funcs:
+                    t = self.fb.funcs[c['m']]
+                    if t.rec is None and t.file == f.file and any(
+                            'exit' in (x.get('ref', {}).get('name') or '').lower() for a in n['c'][1:] for x in sub(a) if x['k'] in ('DeclRefExpr', 'MemberExpr')):
+                        helpers[t.m] = t
+        for f in list(self.fb.funcs.values()):
+            if f.rec != self.cls and f.m not in helpers:
                 continue
             for n in f.walk():
                 if n['k'] == 'BinaryOperator' and n.get('op') in ('<', '>', '<=', '>='):
                     names = [s['ref']['name'] for s in sub(n) if s['k'] == 'MemberExpr']
                     ends = [x for x in names if x in ('first', 'second')]
-                    ex_ = any(x in names for x in ('exitSet', '_exitSets')) or any('exit' in (s['ref'].get('name') or '').lower() for s in sub(n) if s['k'] == 'DeclRefExpr')
+                    ex_ = f.m in helpers or any(x in names for x in ('exitSet', '_exitSets')) or any('exit' in (s['ref'].get('name') or '').lower() for s in sub(n) if s['k'] == 'DeclRefExpr')
                     if ends and ex_:
                         res.append((f, n, n['op']))
         return res
@@ -248,3 +273,54 @@ class Skeleton:
             if hit:
                 res[f.q.split('::')[-1]] = hit
         return res
+
+
+def result_test_blocks(f, g, call):
+    """CFG blocks whose branch condition tests the result of `call`: either the call is part of the condition
+    (`if ((_event = dequeue()))`) or its result was assigned to a member / local that the condition reads before anything
+    else writes it (`_event = dequeue(); if (_event)`)."""
+    out = []
+    for bid, b in g.blocks.items():
+        cnd = b.get('cond')
+        if cnd is not None and cnd in f.nodes and any(x.get('id') == call['id'] for x in sub(f.nodes[cnd])):
+            out.append(bid)
+    if out:
+        return out
+    # assignment form
+    target = None
+    asg = None
+    for a in f.ancestors(call):
+        if a['k'] in ('BinaryOperator', 'CXXOperatorCallExpr') and a.get('op') == '=':
+            lhs = strip(a['c'][0] if a['k'] == 'BinaryOperator' else a['c'][1])
+            if lhs is not None and lhs['k'] in ('MemberExpr', 'DeclRefExpr'):
+                target = (lhs['k'], lhs['ref'].get('name'), lhs['ref'].get('lid'))
+                asg = a
+            break
+        if a['k'] in ('CompoundStmt', 'IfStmt', 'WhileStmt', 'ForStmt'):
+            break
+    if target is None or asg['id'] not in g.pos:
+        return []
+
+    def is_target(x):
+        x = strip(x)
+        return x is not None and x['k'] == target[0] and x.get('ref', {}).get('name') == target[1] and (target[0] == 'MemberExpr' or x['ref'].get('lid') == target[2])
+    writes = [n['id'] for n in f.walk() if n['k'] in ('BinaryOperator', 'CXXOperatorCallExpr') and n.get('op') == '=' and n is not asg and n.get('c') and
+              is_target(n['c'][0] if n['k'] == 'BinaryOperator' else (n['c'][1] if len(n['c']) > 1 else None)) and n['id'] in g.pos]
+    for bid, b in g.blocks.items():
+        cnd = b.get('cond')
+        if cnd is None or cnd not in f.nodes:
+            continue
+        cn = f.nodes[cnd]
+        core = strip(cn)
+        # look through `operator bool` and negation
+        while core is not None and ((core['k'] == 'CXXMemberCallExpr' and '::operator bool' in core.get('callee', {}).get('q', '')) or (core['k'] == 'UnaryOperator' and core.get('op') == '!')):
+            core = strip(core['c'][0]['c'][0]) if core['k'] == 'CXXMemberCallExpr' and core['c'][0].get('c') else strip(core['c'][0])
+        if not is_target(core):
+            continue
+        last = b['el'][-1] if b['el'] else None
+        if last is None:
+            continue
+        # reachable from the assignment without another write of the target in between
+        if g.can_reach(g.pos[asg['id']], [cnd], avoid=writes) is not None:
+            out.append(bid)
+    return out
